@@ -366,6 +366,8 @@ void reb_collision_search(struct reb_simulation* const r){
                     gb.vx += p1.vx; 
                     gb.vy += p1.vy; 
                     gb.vz += p1.vz; 
+                    // The image of the particle moves with the velocity of the ghost box (shear). Use it for the drift.
+                    p1_r_plus_dtv = p1_r + fabs(r->dt_last_done)*sqrt(gb.vx*gb.vx + gb.vy*gb.vy + gb.vz*gb.vz);
                     // Loop over all root boxes.
                     for (int ri=0;ri<r->N_root;ri++){
                         struct reb_treecell* rootcell = r->tree_root[ri];
